@@ -541,6 +541,7 @@ fn clean_item(it: &mut syn::Item, derive_keep: &[String], subst: &BTreeMap<Strin
 // ---- function transformation
 
 struct Rules {
+    fmt_spec: bool,
     fmt_write: bool,
     split_find: bool,
     ctor_as_fn: bool,
@@ -998,6 +999,38 @@ impl<'a> VisitMut for RuleVisitor<'a> {
                             });
                             *e = new;
                             self.applied.bump("E4-then_with-inlined");
+                            return;
+                        }
+                    }
+                }
+            }
+        }
+        if self.rules.fmt_spec {
+            // E33: `format!("{:x}", X)` ==> `vx_format_lower_hex(X)` and `format!("{:0width$}", X, width = W)` ==> `vx_format_zero_padded(X, W)`: one placeholder
+            // with a format spec and no literal text; the two functions are tagged assumptions of the unit stating what core::fmt documents for that spec
+            if let Expr::Macro(m) = e {
+                if last_seg(&m.mac.path) == "format" {
+                    let parser = syn::punctuated::Punctuated::<Expr, syn::Token![,]>::parse_terminated;
+                    if let Ok(args) = syn::parse::Parser::parse2(parser, m.mac.tokens.clone()) {
+                        let args: Vec<Expr> = args.into_iter().collect();
+                        let lit = args.first().and_then(|a| if let Expr::Lit(syn::ExprLit { lit: syn::Lit::Str(l), .. }) = a { Some(l.value()) } else { None });
+                        let mut repl: Option<Expr> = None;
+                        if let Some(text) = lit {
+                            if text == "{:x}" && args.len() == 2 {
+                                let x = &args[1];
+                                repl = Some(parse_quote!(vx_format_lower_hex(#x)));
+                            } else if text == "{:0width$}" && args.len() == 3 {
+                                if let Expr::Assign(a) = &args[2] {
+                                    if ts_string(&*a.left) == "width" {
+                                        let (x, w) = (&args[1], &*a.right);
+                                        repl = Some(parse_quote!(vx_format_zero_padded(#x, #w)));
+                                    }
+                                }
+                            }
+                        }
+                        if let Some(r) = repl {
+                            *e = r;
+                            self.applied.bump("E33-format-with-spec-as-named-function");
                             return;
                         }
                     }
@@ -1697,6 +1730,7 @@ fn transform_fn(
         .map(|a| a.iter().filter_map(|x| x.as_str().map(String::from)).collect())
         .unwrap_or_default();
     let rules = Rules {
+        fmt_spec: rule_list.iter().any(|r| r == "E33"),
         fmt_write: rule_list.iter().any(|r| r == "E32"),
         split_find: rule_list.iter().any(|r| r == "E19"),
         ctor_as_fn: rule_list.iter().any(|r| r == "E26"),
